@@ -183,4 +183,20 @@ PROPS = {
         level_text="Randomised exploration of (content, configuration, source) triples on real engines with an exact content oracle.",
         level_note="Trusted: model map; engines are single-node.",
     ),
+    "C05": dict(
+        pkg="c05", level="exploration",
+        tests=[T("TestC05", Q(30, timeout=400, shards=4, shrinktime="30s"), Q(100, timeout=1500, shards=16, shrinktime="90s")),
+               T("TestC05Tables", Q(40, timeout=300, shrinktime="20s"), Q(200, timeout=900, shards=2, shrinktime="60s"))],
+        rule="TestC05: a real leader engine and a real follower engine (in-process, single-node clusters) wired like cmd/leader.go / cmd/follower.go with three Log servers (message-size limits 256 B, 4 KiB, 4 MiB; odd shards run "
+             "the leader with the log cache on), real Snapshot/Metadata/KV services over loopback gRPC; the replication worker is built by the real factory and stepped by the harness (verif hook). Histories of 3-40 actions: leader put "
+             "(values up to 3 KB) / delete / range delete / non-idempotent txn (if ctr==n then ctr:=n+1 else ctr:=0 + range delete), poll(one worker iteration against a drawn Log server, incl. snapshot recovery when the leader answers "
+             "USE_SNAPSHOT), leader snapshot + log compaction keeping 0-3 entries, worker restart, follower engine restart. Oracle after EVERY action: read follower leader index, full content, leader index again; if unchanged, content == "
+             "leader model at that index; index never decreases; with the leader quiet at most 6 polls reach the leader's latest index and content. Non-trivial iff (a snapshot-based catch-up with non-idempotent txns both before and after it) "
+             "or a worker/engine restart with un-replicated entries pending. TestC05Tables: create/delete of tables on the leader, reconcileTables, follower restarts; follower table set == leader table set after each reconciliation "
+             "(non-trivial iff >=1 create and >=1 delete took effect). Distinct = sha256 of case JSON.",
+        assumptions=["single-replica follower cluster (lease hand-over to a lagging replica is not covered)", "proposal timeouts are not injected", "after an engine restart one reconcile round is run explicitly (production: 30 s timer)"],
+        technique="stateful property-based testing on two real engines with a harness-owned replication schedule, model of the leader's state per revision",
+        level_text="Randomised exploration of leader histories x polling/compaction/restart schedules with an exact per-index content oracle.",
+        level_note="Trusted: model; the worker loop body is re-stated in the verif hook (replication/export_verif.go Poll).",
+    ),
 }
